@@ -89,7 +89,7 @@ theorem SameFrame.trans {a b c : RB} (h1 : SameFrame a b) (h2 : SameFrame b c) :
 
 /-! ### confinement of the drawing operations (what C03 calls `confined`) -/
 
-theorem putRun_cells_of_not_writable (rb : RB) (line col n : Int) (f : Int → Option Cell) (L C : Int)
+theorem putRun_cells_of_not_writable (rb : RB) (line col n : Int) (f : Int → Option CellV) (L C : Int)
     (h : rb.writable L C = false) : (rb.putRun line col n f).cells L C = rb.cells L C := by
   simp only [RB.putRun]
   rw [if_neg]
@@ -97,7 +97,7 @@ theorem putRun_cells_of_not_writable (rb : RB) (line col n : Int) (f : Int → O
   rw [h] at hh
   exact absurd hh.2.2.2 (by simp)
 
-theorem putRect_cells_of_not_writable (rb : RB) (rect : Rect) (v : Option Cell) (L C : Int)
+theorem putRect_cells_of_not_writable (rb : RB) (rect : Rect) (v : Option CellV) (L C : Int)
     (h : rb.writable L C = false) : (rb.putRect rect v).cells L C = rb.cells L C := by
   simp only [RB.putRect]
   rw [if_neg]
@@ -110,7 +110,12 @@ theorem draw_cells_of_not_writable (rb : RB) (op : DrawOp) (L C : Int)
   cases op with
   | eraseRect r => exact putRect_cells_of_not_writable rb r _ L C h
   | skipRect r => exact putRect_cells_of_not_writable rb r _ L C h
-  | textAt l c s => simp only [RB.draw, RB.textAt]; exact putRun_cells_of_not_writable rb l c _ _ L C h
+  | textAt l c s =>
+    simp only [RB.draw, RB.textAt]
+    split
+    · exact putRun_cells_of_not_writable rb l c _ _ L C h
+    · show (rb.putRun l c (textCols s) fun k => some (CellV.text rb.nextId rb.pen s k)).cells L C = rb.cells L C
+      exact putRun_cells_of_not_writable rb l c _ _ L C h
   | charAt l c cp => simp only [RB.draw, RB.charAt]; exact putRun_cells_of_not_writable rb l c _ _ L C h
   | clear => exact putRect_cells_of_not_writable rb _ _ L C h
   | setPen p => rfl
@@ -123,7 +128,9 @@ theorem draw_writable_sub (rb : RB) (op : DrawOp) (L C : Int)
   cases op with
   | eraseRect r => exact h
   | skipRect r => exact h
-  | textAt l c s => exact h
+  | textAt l c s =>
+    simp only [RB.draw, RB.textAt] at h
+    split at h <;> exact h
   | charAt l c cp => exact h
   | clear => exact h
   | setPen p => exact h
@@ -133,7 +140,10 @@ theorem draw_writable_sub (rb : RB) (op : DrawOp) (L C : Int)
     exact h.1
 
 theorem draw_sameFrame (rb : RB) (op : DrawOp) : SameFrame rb (rb.draw op) := by
-  cases op <;> first | exact ⟨rfl, rfl, rfl, rfl⟩ | (simp only [RB.draw]; exact ⟨by simp, by simp, by simp, by simp⟩)
+  cases op with
+  | textAt l c s => simp only [RB.draw, RB.textAt]; split <;> exact ⟨rfl, rfl, rfl, rfl⟩
+  | clip r => simp only [RB.draw]; exact ⟨by simp, by simp, by simp, by simp⟩
+  | _ => exact ⟨rfl, rfl, rfl, rfl⟩
 
 theorem run_sameFrame (prog : List DrawOp) : ∀ rb : RB, SameFrame rb (rb.run prog) := by
   induction prog with
@@ -164,6 +174,14 @@ theorem run_cells_of_not_writable (prog : List DrawOp) : ∀ (rb : RB) (L C : In
       | true => rw [draw_writable_sub rb op L C hh] at h; exact absurd h (by simp)
     show ((rb.draw op).run rest).cells L C = rb.cells L C
     rw [ih (rb.draw op) L C h1, draw_cells_of_not_writable rb op L C h]
+
+/-! ### what the flush sends -/
+
+theorem resolve_none {rb : RB} {L C : Int} (h : rb.cells L C = none) : rb.resolve L C = none := by
+  simp [RB.resolve, h]
+
+theorem resolve_plain {rb : RB} {L C : Int} {x : Cell} (h : rb.cells L C = some (.plain x)) : rb.resolve L C = some x := by
+  simp [RB.resolve, h]
 
 /-! ### save / restore -/
 
